@@ -166,6 +166,9 @@ Proof.
   cbn [fst] in *. congruence.
 Qed.
 
+Lemma In_take_drop {A} (x : A) n l : In x (take n l) \/ In x (drop n l) -> In x l.
+Proof. intros H. rewrite <- (take_drop n l). apply in_or_app. exact H. Qed.
+
 Lemma build_full_sync_msgs pr m :
   In m (build_full_sync pr).2 ->
   (exists e en, p_ents pr !! e = Some en /\ In m (snapshot_entity_msgs pr e en)) \/
@@ -184,9 +187,11 @@ Proof.
   pose proof (serve_all_msgs pr2 AAudio m) as M3.
   destruct (serve_all pr2 AAudio) as [pr3 ma].
   cbn [fst snd] in *. intros Hin.
-  rewrite !in_app_iff in Hin. destruct Hin as [H|[H|[H|[H|[H|H]]]]].
+  rewrite !in_app_iff in Hin. destruct Hin as [[H|H]|[H|[H|[H|[H|H]]]]].
   - left. apply In_concat_fmap in H as ([e en] & Hx & Hy).
-    exists e, en. split; [apply In_map_to_list; exact Hx|exact Hy].
+    exists e, en. split; [apply In_map_to_list; exact Hx|apply (In_take_drop _ 1); left; exact Hy].
+  - left. apply In_concat_fmap in H as ([e en] & Hx & Hy).
+    exists e, en. split; [apply In_map_to_list; exact Hx|apply (In_take_drop _ 1); right; exact Hy].
   - right. left. apply In_concat_fmap in H as ([e en] & Hx & Hy).
     exists e, en. split; [apply In_map_to_list; exact Hx|exact Hy].
   - right. right. right. destruct (M1 H) as (Hc & a & ->). exists AImage, a. split; [exact Hc|reflexivity].
